@@ -21,7 +21,7 @@ type C12Case struct {
 	Files []TreeFile `json:"files"` // the served subtree
 	// destination side for diff / copy (local in both runs)
 	DestFiles []TreeFile `json:"dest_files,omitempty"`
-	Cmd       string     `json:"cmd"` // view | view-raw | sum | diff | copy | sum-diff
+	Cmd       string     `json:"cmd"`               // view | view-raw | sum | diff | copy | sum-diff
 	Rel       string     `json:"rel,omitempty"`     // file (or file glob) relative to the subtree
 	Item      string     `json:"item,omitempty"`    // item pattern relative to the subtree
 	Pattern   string     `json:"pattern,omitempty"` // file pattern inside an item
@@ -31,6 +31,13 @@ type C12Case struct {
 	Header    bool       `json:"header"`
 	Sort      bool       `json:"sort"`
 	CopyNaN   bool       `json:"copy_nan"`
+	// DestRemote (diff, sum-diff): in the remote run the destination base is the server URL too, so the
+	// command's two concurrent reads hit one server
+	DestRemote bool `json:"dest_remote,omitempty"`
+	// Phase2: after the first comparison the served tree is changed (files added / removed) and the same
+	// command is run and compared again against the same, long-running server
+	AddFiles    []TreeFile `json:"add_files,omitempty"`
+	RemoveFiles []string   `json:"remove_files,omitempty"`
 }
 
 var c12Counter int64
@@ -70,6 +77,7 @@ func runC12(c C12Case, ev *Evid) (fs []Finding) {
 	}
 	sub := fmt.Sprintf("c%d", atomic.AddInt64(&c12Counter, 1))
 	defer os.RemoveAll(filepath.Join(root, sub))
+	defer os.RemoveAll(filepath.Join(root, "linked-"+sub))
 	now := c.Now
 	if err := buildTree(filepath.Join(root, sub), c.Files, now); err != nil {
 		add("setup", "%v", err)
@@ -113,10 +121,32 @@ func runC12(c C12Case, ev *Evid) (fs []Finding) {
 		}
 		panic("unknown cmd " + c.Cmd)
 	}
-	outL, outR := filepath.Join(dir, "local.txt"), filepath.Join(dir, "remote.txt")
-	errL, pmL := runCommand(now, mk(root, dests[0], outL))
-	errR, pmR := runCommand(now, mk(url, dests[1], outR))
-	desc := fmt.Sprintf("%s now=%d rel=%q item=%q pattern=%q from=%d until=%d archive=%d header=%v sort=%v", c.Cmd, now, c.Rel, c.Item, c.Pattern, c.From, c.Until, c.ArchiveID, c.Header, c.Sort)
+	destRemote := c.DestRemote && c.Cmd == "diff" && !strings.ContainsAny(c.Rel, "*?[")
+	dsub := "dest-" + sub
+	if destRemote {
+		// the destination tree is served too (same files as the local destination trees); both bases are
+		// then the served root (directory / URL) and the destination is named by its relative path
+		defer os.RemoveAll(filepath.Join(root, dsub))
+		if err := buildTree(filepath.Join(root, dsub, sub), c.DestFiles, now); err != nil {
+			add("setup", "%v", err)
+			return
+		}
+		os.MkdirAll(filepath.Join(root, dsub, sub), 0755)
+	}
+	desc := fmt.Sprintf("%s now=%d rel=%q item=%q pattern=%q from=%d until=%d archive=%d header=%v sort=%v destRemote=%v", c.Cmd, now, c.Rel, c.Item, c.Pattern, c.From, c.Until, c.ArchiveID, c.Header, c.Sort, c.DestRemote)
+	phase := 1
+again:
+	outL, outR := filepath.Join(dir, fmt.Sprintf("local%d.txt", phase)), filepath.Join(dir, fmt.Sprintf("remote%d.txt", phase))
+	cmdL, cmdR := mk(root, dests[0], outL), mk(url, dests[1], outR)
+	if destRemote {
+		for i, cc := range []cmd.Command{cmdL, cmdR} {
+			dc := cc.(*cmd.DiffCommand)
+			dc.DestRelPath = dsub + "/" + dc.SrcRelPath
+			dc.DestBase = []string{root, url}[i]
+		}
+	}
+	errL, pmL := runCommand(now, cmdL)
+	errR, pmR := runCommand(now, cmdR)
 	if pmL != "" {
 		add("local-panic", "%s: the local run panicked: %s", desc, pmL)
 		return
@@ -126,6 +156,20 @@ func runC12(c C12Case, ev *Evid) (fs []Finding) {
 		return
 	}
 	cl, cr := errClass(errL), errClass(errR)
+	// diff / sum-diff read both sides concurrently: when one read fails for another reason (here: an
+	// archive id some file does not have) AND a side is missing, which error wins depends on goroutine
+	// order - "diff found" and "error" are then both legitimate outcomes
+	minArch := len(l.Archives)
+	for _, f := range append(append([]TreeFile(nil), c.Files...), c.DestFiles...) {
+		if n := len(f.Spec.L.Archives); n < minArch {
+			minArch = n
+		}
+	}
+	if cl != cr && (c.Cmd == "diff" || c.Cmd == "sum-diff") && c.ArchiveID >= minArch &&
+		(cl == "diff-found" || cl == "error") && (cr == "diff-found" || cr == "error") {
+		ev.Count(HashJSON(c), false, "cmd="+c.Cmd, "order-dependent-double-fault")
+		return nil
+	}
 	if cl != cr {
 		add("class-mismatch", "%s: local result %s (%v), remote result %s (%v)", desc, cl, errL, cr, errR)
 		return
@@ -133,6 +177,7 @@ func runC12(c C12Case, ev *Evid) (fs []Finding) {
 	// the two runs use separate (identical) destination trees: mask their base paths
 	tl := strings.ReplaceAll(readText(outL), dests[0], "<dest>")
 	tr := strings.ReplaceAll(readText(outR), dests[1], "<dest>")
+	_ = dsub
 	// err: records carry an error message (never compared, only the class) and name the side that
 	// was missing; when BOTH sides of a file / item are missing, the side reported first depends on
 	// goroutine order, so the side is masked for exactly those records (checked against the trees)
@@ -157,6 +202,9 @@ func runC12(c C12Case, ev *Evid) (fs []Finding) {
 			} else {
 				srcMissing = !fileExists(filepath.Join(root, cur))
 				destMissing = !fileExists(filepath.Join(dests[0], cur))
+				if destRemote {
+					destMissing = !fileExists(filepath.Join(root, dsub, cur))
+				}
 			}
 			side := ""
 			if j := strings.LastIndex(ln, "\tsrcOrDest:"); j >= 0 && !(srcMissing && destMissing) {
@@ -191,6 +239,20 @@ func runC12(c C12Case, ev *Evid) (fs []Finding) {
 				add("copy-dest-mismatch", "%s: destination %s differs between the local and the remote run", desc, k)
 				return
 			}
+		}
+	}
+	if phase == 1 && (len(c.AddFiles) > 0 || len(c.RemoveFiles) > 0) {
+		phase = 2
+		for _, rf := range c.RemoveFiles {
+			os.Remove(filepath.Join(root, sub, rf))
+		}
+		if err := buildTree(filepath.Join(root, sub), c.AddFiles, now); err != nil {
+			add("setup", "phase 2: %v", err)
+			return
+		}
+		desc = "(second run after a tree change: +" + fmt.Sprint(len(c.AddFiles)) + " -" + fmt.Sprint(len(c.RemoveFiles)) + " files) " + desc
+		if c.Cmd != "copy" {
+			goto again
 		}
 	}
 	dataLines := 0
@@ -276,6 +338,26 @@ func genC12(t *rapid.T) C12Case {
 			}
 		}
 	}
+	if c.Cmd == "diff" && rapid.IntRange(0, 1).Draw(t, "destRemote") == 0 {
+		c.DestRemote = true
+	}
+	if c.Cmd != "copy" && rapid.IntRange(0, 3).Draw(t, "phase2") == 0 {
+		// tree change below the pattern's first wildcard level, then the same command again
+		n := rapid.IntRange(0, 2).Draw(t, "adds")
+		for i := 0; i < n; i++ {
+			f := c.Files[rapid.IntRange(0, len(c.Files)-1).Draw(t, "addLike")]
+			c.AddFiles = append(c.AddFiles, TreeFile{Dir: f.Dir, Name: fmt.Sprintf("f%d.wsp", 7+i), Spec: FileSpec{L: f.Spec.L, Writes: genWrites(t, f.Spec.L, now, valDyadic, 5)}})
+		}
+		if rapid.Bool().Draw(t, "newDir") {
+			f := c.Files[0]
+			c.AddFiles = append(c.AddFiles, TreeFile{Dir: filepath.Dir(f.Dir+"/x") + "2", Name: "f1.wsp", Spec: f.Spec})
+		}
+		m := rapid.IntRange(0, 2).Draw(t, "removes")
+		for i := 0; i < m && i < len(c.Files); i++ {
+			f := c.Files[rapid.IntRange(0, len(c.Files)-1).Draw(t, "remove")]
+			c.RemoveFiles = append(c.RemoveFiles, f.Dir+"/"+f.Name)
+		}
+	}
 	c.From, c.Until = genCLIWindow(t, l, now)
 	switch r := rapid.IntRange(0, 9).Draw(t, "archiveSel"); {
 	case r < 3:
@@ -292,8 +374,9 @@ func genC12(t *rapid.T) C12Case {
 func TestC12(t *testing.T) {
 	defer cleanupServerRoot()
 	RunProperty(t, Property[C12Case]{
-		ID: "C12",
-		Rule: "one in-process `whispertool server` over a per-process root; per case a fresh served subtree (1-3 directories x 1-6 files) and a command - view, view-raw, sum, diff and copy with the source side remote, sum-diff, file and item globs through them - run twice at the same controlled clock: with the directory and with the server URL as base, through real HTTP round trips. Existing and missing files / patterns, every window / archive selection (incl. out-of-range ids). Oracle (differential): same result class {nil, diff found, not-exist, other error}, byte-identical text output, and for copy byte-identical destination trees. Non-trivial: the compared output has >=1 data line, or the case is a not-exist case. Distinct = hash of the case.",
+		NoteCases:   true,
+		ID:          "C12",
+		Rule:        "one in-process `whispertool server` over a per-process root; per case a fresh served subtree (1-3 directories x 1-6 files) and a command - view, view-raw, sum, diff and copy with the source side remote, sum-diff, file and item globs through them - run twice at the same controlled clock: with the directory and with the server URL as base, through real HTTP round trips. Existing and missing files / patterns, every window / archive selection (incl. out-of-range ids). Oracle (differential): same result class {nil, diff found, not-exist, other error}, byte-identical text output, and for copy byte-identical destination trees. Non-trivial: the compared output has >=1 data line, or the case is a not-exist case. Distinct = hash of the case.",
 		Assumptions: []string{"error messages of the 'other error' class are not compared", "file and directory names from [a-z0-9/.] plus, in a quarter of the cases, one of + & space %41 = # ; (no glob metacharacters, no dots in directory names)"},
 		Gen:         genC12,
 		Run:         runC12,
